@@ -7,7 +7,6 @@ git -C "$WT" checkout -q --detach "$(git -C /repo rev-parse HEAD)" || exit 2
 git -C "$WT" apply "$1" || { echo "patch does not apply"; exit 3; }
 cd /verif
 EVID=$(mktemp -d)
-cp evidence/$2.json $EVID/ 2>/dev/null
-VERIF_REPO="$WT" ./vf "$2" --tier "${3:-quick}" 2>&1 | grep -E "VIOLATION|key=|^\[C|HARNESS|KNOWN" | cut -c1-${LINES_W:-260} | head -${LINES_MAX:-12}
-cp $EVID/$2.json evidence/ 2>/dev/null; rm -rf $EVID
+VERIF_REPO="$WT" VERIF_EVIDENCE_DIR=$EVID ./vf "$2" --tier "${3:-quick}" 2>&1 | grep -E "VIOLATION|key=|^\[C|HARNESS|KNOWN" | cut -c1-${LINES_W:-260} | head -${LINES_MAX:-12}
+rm -rf $EVID
 git -C "$WT" checkout -- . ; git -C "$WT" clean -fdq
